@@ -47,7 +47,7 @@ def attribute(req, event, ev=None, text=""):
         return "C08"
     if (event in ("cand", "candl") or name.startswith("cand")) and ev is not None and ev.get("st", {}).get("lim"):
         return "C08"      # a candidate set computed under stored level limits
-    if event in ("loadc", "cand", "candl", "begin", "finish") or name.startswith("cand"):
+    if event in ("loadc", "cand", "candl", "begin", "finish") or name.startswith("cand") or name.startswith("loadc"):
         return "C09"
     if event in ("copy", "copyctor", "assign") or name == "other-slot":
         return "C11"
@@ -463,7 +463,7 @@ def run_grid(ctx, scen_sets, obs_mask, prop, chunk=30, timeout=240, variant="hoo
             if rj["invariant"] == "TLimits":
                 owner = "C08"
             st = ev.get("st", {})
-            sig = "%s:%s:%s:%s%s" % (ev.get("e", "?"), name, st.get("fam", "?"), sig_detail(ev, rj), sig_suffix(ev))
+            sig = "%s:%s:%s:%s%s" % (ev.get("e", "?"), name, st.get("fam", "?"), sig_detail(ev, rj), sig_suffix(ev, (rj["raw_req"] or [""])[0]))
             if own_all:
                 owner = prop          # every state in these traces was produced by the front end under test
             if owner != prop:
@@ -505,8 +505,11 @@ def sig_detail(ev, rj):
     return "r=%s" % ev.get("r")
 
 
-def sig_suffix(ev):
-    return ":timeout" if ev.get("r") == "timeout" else ""
+def sig_suffix(ev, text=""):
+    s = ":timeout" if ev.get("r") == "timeout" else ""
+    if "after-a-child-was-promoted-before-a-parent" in text:
+        s += ":child-before-parent-history"
+    return s
 
 
 def replay(ctx, path, prop, obs_mask):
